@@ -222,6 +222,21 @@ class UserRecord(object):
             self.aliases = aliases
 
 
+_USER_SYMBOL = []
+
+
+def user_symbol_class():
+    le = imp()
+    if not _USER_SYMBOL:
+        class NamedLicense(le.LicenseSymbol):
+            """What a user of the library writes to carry more data on a license."""
+            def __init__(self, key, aliases=tuple(), is_exception=False, name=None, *args, **kwargs):
+                super().__init__(key, aliases, is_exception, *args, **kwargs)
+                self.name = name or key
+        _USER_SYMBOL.append(NamedLicense)
+    return _USER_SYMBOL[0]
+
+
 def build_expr(d, licensing=None, like=False, _rng=None):
     """Build implementation objects from the encoded tree (no parsing involved). With like=True every license is a
     LicenseSymbolLike wrapping a user object, as an expression parsed over a table of objects has them; with like=<int> each
@@ -241,7 +256,9 @@ def build_expr(d, licensing=None, like=False, _rng=None):
             als = _rng.choice([(k + ' license',), ('the ' + k, k + ' 2'), ()])
         if wrapped:
             return le.LicenseSymbolLike(UserRecord(k, ex, None if als is None else (list(als) if _rng.random() < 0.5 else als)))
-        return le.LicenseSymbol(k, is_exception=ex) if als is None else le.LicenseSymbol(k, aliases=als, is_exception=ex)
+        # a table may hold instances of a user's subclass of LicenseSymbol: they are the same licenses as plain symbols
+        cls = user_symbol_class() if (_rng is not None and _rng.random() < 0.3) else le.LicenseSymbol
+        return cls(k, is_exception=ex) if als is None else cls(k, aliases=als, is_exception=ex)
     tag = d[0]
     if tag == 0:
         a = d[1]
